@@ -81,6 +81,28 @@ def run(ctx):
         nship = len(fonts)
         base = [(i, open(f, "rb").read()) for i, f in enumerate(fonts) if os.path.getsize(f) < (700000 if q else 10 ** 8)]
         lines, pre = [], []
+        origin = {}          # index of a derived font -> (shipped font it was made from, how)
+        # fonts whose name table the engine cannot use (format 1, absent, too short) and labels asked for after gr_make_face
+        for fi, data in base:
+            if len(data) > 700000:
+                continue
+            nt = fontmut.tables(data).get("name")
+            if not nt:
+                continue
+            for what in ["name+0:00>01", "drop:name", "name+1:00>01,cut-name@4"]:
+                if what == "drop:name":
+                    mut = fontmut.drop_table(data, "name")
+                elif "cut-name" in what:
+                    mut = fontmut.replace_table(data, "name", data[nt[0]: nt[0] + 4])
+                else:
+                    mut = fontmut.apply(data, what)
+                p = tmp / ("m%d.ttf" % len(fonts))
+                p.write_bytes(mut)
+                fonts.append(str(p))
+                origin[len(fonts) - 1] = (fonts[fi], what)
+                for opts in (6, 7, 0):
+                    lines.append(";".join(["F0=%d,%d,C" % (len(fonts) - 1, opts), "N0=0,14", "Q0", "N0=0,14", "X0", "T0", "L0"]))
+                    pre.append(opts & 6 == 6)
         for _ in range(350 if q else 15000):
             fi, data = r.choice(base)
             name, fdir, texts = apihist.FONTS[fi]
@@ -91,6 +113,7 @@ def run(ctx):
                 p.write_bytes(mut)
                 fonts.append(str(p))
                 use = len(fonts) - 1
+                origin[use] = (fonts[fi], what)
             opts = r.choice([0, 2, 4, 6, 6, 7])
             ops = ["F0=%d,%d,C" % (use, opts), "N0=0,14"]
             body = ["Q0", "V1=0,0", apihist.seg_op(0, 0, r.choice([0, -1]), -1, r.choice(texts), fdir), "D0"] + apihist.noise(r, fi)
@@ -113,7 +136,8 @@ def run(ctx):
             if not ok:
                 fi = int(l.split("=")[1].split(",")[0])
                 res.failures.append({"harness": "h_seg", "mode": "lend", "line": l, "impl": o[-500:], "model": None, "why": why, "preload_all": pa,
-                                     "font_hex": open(fonts[fi], "rb").read().hex() if fi >= nship and os.path.getsize(fonts[fi]) < 400000 else None, "font": fonts[fi] if fi < nship else None})
+                                     "font_hex": open(fonts[fi], "rb").read().hex() if fi >= nship and os.path.getsize(fonts[fi]) < 400000 else None, "font": fonts[fi] if fi < nship else None,
+                                     "made_from": origin.get(fi, (None, None))[0], "made_how": origin.get(fi, (None, None))[1]})
         res.samples.append({"in": lines[0][:300], "impl": impl[0][-200:], "model": "(no model at this level)"})
     finally:
         shutil.rmtree(tmp, ignore_errors=True)
@@ -129,6 +153,14 @@ def replay(ctx, obj):
             if obj.get("font_hex"):
                 p = tmp / "f.ttf"
                 p.write_bytes(bytes.fromhex(obj["font_hex"]))
+                font = str(p)
+            elif obj.get("made_from"):
+                data = open(obj["made_from"], "rb").read()
+                how = obj["made_how"]
+                nt = fontmut.tables(data).get("name")
+                mut = fontmut.drop_table(data, "name") if how == "drop:name" else fontmut.replace_table(data, "name", data[nt[0]: nt[0] + 4]) if "cut-name" in how else fontmut.apply(data, how)
+                p = tmp / "f.ttf"
+                p.write_bytes(mut)
                 font = str(p)
             else:
                 font = obj.get("font")
